@@ -23,7 +23,7 @@ func init() {
 		Rule: "one run = N searches pipelined on one connection (N in {2,8,64}; up to 512 in thorough); each handler first joins a barrier that opens only when all N handlers have entered " +
 			"(simultaneity is proven, not assumed), then writes K entries with unique ids (h=<message id>,j=<seq>) whose payload is a function of (h,j,len), len cycling through {3,100,5000,70000} " +
 			"(below/above the 4096-byte write buffer), then SearchDone; every Write result is logged. Runs cover plain / TLS-listener / StartTLS-upgraded transports x eager / back-pressure reading x GOMAXPROCS {1,2,4,16}, " +
-			"under the race detector; plus thousands of small bursts (2..4 writers, then silence) on one long-lived connection, where every frame of a burst must arrive before the client sends anything else. Oracle: strict incremental parse; multiset of ids == set of successful writes; per-writer order; payload check. " +
+			"under the race detector; plus thousands of small bursts (2..4 writers, then silence) on one long-lived connection, where every frame of a burst must arrive before the client sends anything else; and runs in which the server is stopped while handlers are writing and the client keeps pipelining (gldap's own shutdown notice shares the stream). Oracle: strict incremental parse; multiset of ids == set of successful writes; per-writer order; payload check. " +
 			"distinct_nontrivial = distinct cross-writer interleaving signatures (order of writer ids in the received stream) with at least one cross-writer switch",
 		Assume: []string{"the client-side parser (internal/sber) is strict and independent of asn1-ber"},
 		Phases: func(tier string, seed int64) []Phase {
@@ -37,7 +37,7 @@ func init() {
 			}
 			return ps
 		},
-		MinObserved: []string{"frames_checked", "cross_writer_switches", "barrier_openings", "bursts_fully_answered_without_further_traffic"},
+		MinObserved: []string{"frames_checked", "cross_writer_switches", "barrier_openings", "bursts_fully_answered_without_further_traffic", "stops_during_concurrent_writes"},
 	})
 }
 
@@ -397,9 +397,165 @@ func c05Bursts(c *Ctx, r *Rand, bursts int) {
 	}
 }
 
+// c05StopDuringWrites: the server is stopped while handlers are in the middle of writing and the client keeps
+// pipelining requests (so that the connection's read loop is busy, not parked in a network read). Whatever gldap
+// itself writes at shutdown shares the stream with the handlers' frames: the client must still receive a
+// concatenation of whole LDAPMessages, every successfully written frame exactly once.
+func c05StopDuringWrites(c *Ctx, r *Rand, round int) {
+	type wkey struct {
+		h int64
+		j int
+	}
+	var mu sync.Mutex
+	ok := map[wkey]bool{}
+	var failed int64
+	srv, err := startSrv(SrvCfg{}, func(m *gldap.Mux) {
+		m.Search(func(w *gldap.ResponseWriter, req *gldap.Request) {
+			sm, err := req.GetSearchMessage()
+			if err != nil {
+				return
+			}
+			h := sm.GetID()
+			for j := 0; j < 6; j++ {
+				e := req.NewSearchResponseEntry(fmt.Sprintf("h=%d,j=%d", h, j))
+				e.AddAttribute("p", []string{string(c05Payload(h, j, 1500+int(h%5)*400))})
+				err := w.Write(e)
+				mu.Lock()
+				if err == nil {
+					ok[wkey{h, j}] = true
+				} else {
+					failed++
+				}
+				mu.Unlock()
+				if err != nil {
+					return
+				}
+			}
+		})
+	})
+	if err != nil {
+		c.Inconclusive("server start: " + err.Error())
+		return
+	}
+	cn, err := net.Dial("tcp", srv.Addr)
+	if err != nil {
+		c.Inconclusive("dial: " + err.Error())
+		srv.StopWithin(patience)
+		return
+	}
+	defer cn.Close()
+	var stopWriting atomic.Bool
+	var sent atomic.Int64
+	go func() {
+		for id := int64(1); !stopWriting.Load() && id < 4000; id++ {
+			cn.SetWriteDeadline(time.Now().Add(5 * time.Second))
+			if _, err := cn.Write(sber.Message(id, sber.Search{Base: []byte("dc=x"), Scope: 2, Filter: sber.PresentFilter("cn"), Attrs: [][]byte{}}.Node(), nil).Encode()); err != nil {
+				return
+			}
+			sent.Store(id)
+		}
+	}()
+	// read slowly for a while (back-pressure builds up), then stop the server and drain
+	br := bufio.NewReaderSize(cn, 64<<10)
+	seen := map[wkey]int{}
+	frames, notices := 0, 0
+	det := map[string]any{"round": round}
+	readOne := func(d time.Duration) (bool, error) {
+		cn.SetReadDeadline(time.Now().Add(d))
+		f, err := sber.ReadFrame(br)
+		if err != nil {
+			return false, err
+		}
+		m, perr := sber.ParseMessage(f)
+		if perr != nil {
+			return false, fmt.Errorf("unparseable frame %x: %v", trunc(f, 24), perr)
+		}
+		frames++
+		c.Count("frames_checked", 1)
+		if m.Op.Tag == sber.AppExtendedResponse && m.ID == 0 {
+			notices++ // gldap's own notice of disconnection
+			return true, nil
+		}
+		e, perr := sber.AsEntry(m.Op)
+		if perr != nil {
+			return false, fmt.Errorf("unexpected frame (tag %d id %d): %v", m.Op.Tag, m.ID, perr)
+		}
+		var eh int64
+		var ej int
+		if _, serr := fmt.Sscanf(string(e.DN), "h=%d,j=%d", &eh, &ej); serr != nil || eh != m.ID {
+			return false, fmt.Errorf("entry %q under message id %d", e.DN, m.ID)
+		}
+		if len(e.Attrs) != 1 || string(e.Attrs[0].Vals[0]) != string(c05Payload(eh, ej, 1500+int(eh%5)*400)) {
+			return false, fmt.Errorf("payload of h=%d j=%d does not match", eh, ej)
+		}
+		seen[wkey{eh, ej}]++
+		return true, nil
+	}
+	for i := 0; i < 30+r.Intn(60); i++ {
+		if _, err := readOne(patience); err != nil {
+			c.Violate("byte stream is not a concatenation of whole LDAPMessages", "before Stop: "+err.Error(), det)
+			stopWriting.Store(true)
+			srv.StopWithin(patience)
+			return
+		}
+		if r.Chance(40) {
+			time.Sleep(time.Duration(r.Intn(800)) * time.Microsecond)
+		}
+	}
+	stopRet := make(chan struct{})
+	go func() { srv.S.Stop(); close(stopRet) }()
+	var streamErr error
+	cleanEOF := false
+	for {
+		if _, err := readOne(patience); err != nil {
+			if !strings.Contains(err.Error(), "EOF") && !strings.Contains(err.Error(), "reset") && !isTimeout(err) {
+				streamErr = err
+			}
+			// the server may close with unread requests in its receive queue: TCP then resets the connection and may
+			// discard frames still in flight - only a clean EOF proves that everything written was deliverable
+			cleanEOF = err == io.EOF
+			break
+		}
+	}
+	stopWriting.Store(true)
+	select {
+	case <-stopRet:
+	case <-time.After(patience):
+		c.Inconclusive("Stop did not return (see C11)")
+	}
+	mu.Lock()
+	defer mu.Unlock()
+	if streamErr != nil && failed == 0 {
+		c.Violate("byte stream is not a concatenation of whole LDAPMessages", fmt.Sprintf("while the server was stopping (no Write had failed): %v", streamErr), det)
+	} else if streamErr != nil {
+		c.Count("torn_tail_after_a_failed_write_tolerated", 1)
+	}
+	for k, n := range seen {
+		if n > 1 {
+			c.Violate("frame duplicated", fmt.Sprintf("h=%d j=%d seen %d times around Stop", k.h, k.j, n), det)
+		}
+		if !ok[k] && failed == 0 {
+			c.Violate("frame received although its Write did not succeed", fmt.Sprintf("h=%d j=%d", k.h, k.j), det)
+		}
+	}
+	if streamErr == nil && cleanEOF {
+		for k := range ok {
+			if seen[k] == 0 {
+				c.Violate("frame lost although its Write returned nil", fmt.Sprintf("h=%d j=%d (server stopping)", k.h, k.j), det)
+				break
+			}
+		}
+	}
+	c.Count("stops_during_concurrent_writes", 1)
+	c.Count("notices_of_disconnection_seen", int64(notices))
+}
+
 func c05Run(c *Ctx) {
 	pki := newPKI()
 	r := c.Rng
+	for i := 0; i < c.N(6, 80); i++ {
+		c05StopDuringWrites(c, r.Sub(fmt.Sprintf("stop%d", i)), i)
+	}
 	c05Bursts(c, r.Sub("bursts"), c.N(4000, 60000))
 	ns := []int{2, 8, 64}
 	k := 6
